@@ -526,6 +526,32 @@ pub fn config_fields(c: &TrippyConfig, pid: u16) -> Vec<(&'static str, String)> 
     ]
 }
 
+/// The configuration the frontend runs with (app.rs make_tui_config, through the hook) against the effective
+/// configuration it is derived from, field by field: the names of the fields that differ ("-" when none).
+pub fn tui_config_diff(c: &TrippyConfig) -> String {
+    use trippy_tui::verif_frontend::{Bindings, Columns, Theme};
+    let locale = "xx-test".to_string();
+    let t = match std::panic::catch_unwind(std::panic::AssertUnwindSafe(|| tv::make_tui_config(c, locale.clone()))) { Ok(t) => t, Err(_) => return "panic".to_string() };
+    let mut d: Vec<&str> = vec![];
+    if t.refresh_rate != c.tui_refresh_rate { d.push("tui_refresh_rate"); }
+    if t.privacy_max_ttl != c.tui_privacy_max_ttl { d.push("tui_privacy_max_ttl"); }
+    if t.preserve_screen != c.tui_preserve_screen { d.push("tui_preserve_screen"); }
+    if t.address_mode as usize != c.tui_address_mode as usize { d.push("tui_address_mode"); }
+    if t.lookup_as_info != c.dns_lookup_as_info { d.push("dns_lookup_as_info"); }
+    if t.as_mode as usize != c.tui_as_mode as usize { d.push("tui_as_mode"); }
+    if t.icmp_extension_mode as usize != c.tui_icmp_extension_mode as usize { d.push("tui_icmp_extension_mode"); }
+    if t.geoip_mode as usize != c.tui_geoip_mode as usize { d.push("tui_geoip_mode"); }
+    if t.max_addrs != c.tui_max_addrs { d.push("tui_max_addrs"); }
+    if t.geoip_mmdb_file != c.geoip_mmdb_file { d.push("geoip_mmdb_file"); }
+    if t.dns_resolve_all != c.dns_resolve_all { d.push("dns_resolve_all"); }
+    if t.locale != locale { d.push("locale"); }
+    if t.timezone != c.tui_timezone { d.push("tui_timezone"); }
+    if format!("{:?}", t.theme) != format!("{:?}", Theme::from(c.tui_theme)) { d.push("tui_theme"); }
+    if format!("{:?}", t.bindings) != format!("{:?}", Bindings::from(c.tui_bindings)) { d.push("tui_bindings"); }
+    if format!("{:?}", t.tui_columns) != format!("{:?}", Columns::from(c.tui_custom_columns.clone())) { d.push("tui_custom_columns"); }
+    if d.is_empty() { "-".to_string() } else { d.join(",") }
+}
+
 /// which `Err(anyhow!(..))` site of build_config produced this message
 pub fn classify_error(msg: &str) -> String {
     let table: &[(&str, &str)] = &[
@@ -596,8 +622,10 @@ pub fn run_case(c: &Case) -> Ran {
         Ok(Err(e)) if e.starts_with("parse:") => Ran { output: "err:parse".to_string(), fields: None, detail: format!("{inputs} error={e:?}") },
         Ok(Err(e)) => Ran { output: format!("err:{}", classify_error(&e)), fields: None, detail: format!("{inputs} error={e:?}") },
         Ok(Ok(cfg)) => {
-            let f = config_fields(&cfg, c.pid);
+            let mut f = config_fields(&cfg, c.pid);
             let out = format!("ok {}", f.iter().map(|(k, v)| format!("{k}={v}")).collect::<Vec<_>>().join(" "));
+            // (not printed, so the model line is unchanged: judged by the oracle only)
+            f.push(("tui_config_diff", tui_config_diff(&cfg)));
             Ran { output: out, fields: Some(f), detail: inputs }
         }
     }
@@ -671,6 +699,10 @@ pub fn oracle(c: &Case, ran: &Ran) -> String {
     };
     expect("theme", items("theme", 34, &|i| color_id_of_name(THEME_DOC_DEFAULT[i])));
     expect("bindings", items("bind", 38, &|i| key_id_of_text(BIND_DOC_DEFAULT[i])));
+    // the frontend runs with exactly these values (app.rs make_tui_config)
+    if let Some(dv) = actual.get("tui_config_diff") {
+        if dv.as_str() != "-" { for k in dv.split(',') { fails.borrow_mut().push(format!("{k}:value_in_force_in_the_frontend_differs_from_the_effective_configuration")); } }
+    }
     // an accepted configuration must be accepted by the builder too, or refused by it with a configuration error
     if let Some(b) = actual.get("builder") {
         if b.as_str() != "ok" && b.as_str() != "bad" { fails.borrow_mut().push(format!("builder_{b}")); }
